@@ -13,9 +13,12 @@
      "docmod"                                the document after the call differs from the document before (C06)
      "history"                               (same handle searched again) covered by "outcome": the allowed set
                                              is a function of (text, document) only (C13)
-   A real AST that differs structurally from the specification's is reported as drift "ast" (not a verdict).
+   Reported as drift (not a verdict): a real AST that differs structurally from the specification's ("ast"), a
+   token stream that differs from the lexer specification's ("tokens"), a syntax-error offset other than the
+   predicted one ("offset"), and an Execute-entry sequence (verifEnter hook) that no trail of the instrumented
+   semantics EvalTrace!OutT explains ("enter": evaluation order / short-circuiting / once-per-element).
    Acceptance: every line consumed (TraceAccepted). *)
-EXTENDS Text, Json
+EXTENDS Text, EvalTrace, Json
 
 CONSTANT TraceFile
 Trace == ndJsonDeserialize(TraceFile)
@@ -68,7 +71,9 @@ TraceSearch ==
              IN /\ bad' = bad \cup (IF opaque \/ Member(o, allowed) THEN {} ELSE {[line |-> l, why |-> "outcome", allowed |-> allowed]})
                              \cup (IF ev.docAfter = ev.doc THEN {} ELSE {[line |-> l, why |-> "docmod", allowed |-> allowed]})
                 /\ stats' = [stats EXCEPT !.events = @ + 1, !.searches = @ + 1, !.unspec = @ + (IF opaque THEN 1 ELSE 0)]
-                /\ UNCHANGED drift
+                \* the Execute-entry sequence logged by the verifEnter hook against the instrumented semantics (drift only)
+                /\ drift' = drift \cup (IF ev.enter # <<>> /\ o[1] \in {"ok", "err"} /\ ~Explained(ev.enter, m[2], FromJ(ev.doc))
+                                        THEN {[line |-> l, why |-> "enter"]} ELSE {})
   /\ UNCHANGED models
 
 TraceDone == /\ l = Len(Trace) + 1
